@@ -235,3 +235,9 @@ Definition step_op_pinned (async : bool) (st : dstate) (op : aop) : dstate :=
   end.
 Definition run_ops_pinned (async : bool) (ops : list aop) : dstate :=
   fold_left (step_op_pinned async) ops (mkD false [] []).
+
+(* several exchanges on one client / connection: every exchange looks its dumpers up afresh
+   (dump.GetDumpers on the request's context; newTextprotoReader per response head), so a run is
+   the concatenation of the exchanges' own hook runs *)
+Definition run_sequence (xs : list (list dumper * list hook)) : list emission :=
+  flat_map (fun x => run_hooks (fst x) (snd x)) xs.
